@@ -1059,7 +1059,15 @@ fn check_crash_images(ctx: &Ctx, log: &[DiskOp], commits: &[(usize, Vec<String>)
         let mut got_idx = index.clone();
         want_idx.sort();
         got_idx.sort();
-        if want_idx != got_idx {
+        // publish-only workloads: exact equality. Evicting workloads: every stored packet must be
+        // indexed under its own timestamp (or it would never be evicted); rows without a packet are
+        // a state the store anticipates (a CheckExpired sent for an older row evicts a newer, also
+        // expired packet; the leftover row is dropped by the next scan's "not found" branch)
+        let consistent = if require_committed { want_idx == got_idx } else { want_idx.iter().all(|w| got_idx.contains(w)) };
+        if got_idx.len() != want_idx.len() {
+            ctx.count("probe.crash_image_with_dangling_index_rows");
+        }
+        if !consistent {
             ctx.violate(
                 "expiry-index-inconsistent-after-crash",
                 format!("crash after {prefix} of {} ops: index rows {:?}, stored packets imply {:?}", log.len(), got_idx.iter().map(|x| x.0).collect::<Vec<_>>(), want_idx.iter().map(|x| x.0).collect::<Vec<_>>()),
@@ -1283,5 +1291,5 @@ prop!(C38, "C38", "exploration",
     "case = swarm config + a publisher task (1..4 publishes of increasing timestamp for one key) racing a resolver task (2..8 DNS lookups or pkarr GETs) with seeded gaps (none / yields / ms) and seeded yields at the two in-tree schedule points (after the store read in resolve, after the upsert acknowledgement in insert); non-trivial = some lookup was invoked before a later acknowledgement; distinct = distinct history hash",
     15_000, 1_000_000, vec!["single-threaded interleavings at await points plus the two named schedule points".into()]);
 prop!(C39, "C39", "fault_enumeration",
-    "two kinds of case. Crash: swarm config + 1..5 publishes with gaps; the live run logs every disk write/set_len/sync; afterwards a crash is simulated after EVERY prefix of that log (durable image + PRNG subset of unsynced writes, possibly torn at 512-byte sectors), the image is reopened through redb recovery and both tables are checked (exhaustive over crash points per run, runs sampled); optionally one EIO/ENOSPC is injected in the live run. Eviction: 1..5 packets with ages on both sides of the retention cut-off, wall-clock step mid-run; fresh republishes for the same keys land on the eviction ticks (between the evict task's snapshot and its expiry checks); every eviction event is checked against the cut-off at removal time and after a settle every expired packet must be gone and every unexpired one still served; the disk log of the eviction workload is crash-enumerated too (every prefix, or ~400 evenly spaced ones for long logs, plus the final state): the image must reopen, hold only published packets and an expiry index that matches them exactly (committed-packet durability is not demanded there, since eviction legitimately removes). non-trivial = >10 disk ops and >=1 commit, or any eviction case; distinct = distinct history hash",
+    "two kinds of case. Crash: swarm config + 1..5 publishes with gaps; the live run logs every disk write/set_len/sync; afterwards a crash is simulated after EVERY prefix of that log (durable image + PRNG subset of unsynced writes, possibly torn at 512-byte sectors), the image is reopened through redb recovery and both tables are checked (exhaustive over crash points per run, runs sampled); optionally one EIO/ENOSPC is injected in the live run. Eviction: 1..5 packets with ages on both sides of the retention cut-off, wall-clock step mid-run; fresh republishes for the same keys land on the eviction ticks (between the evict task's snapshot and its expiry checks); every eviction event is checked against the cut-off at removal time and after a settle every expired packet must be gone and every unexpired one still served; the disk log of the eviction workload is crash-enumerated too (every prefix, or ~400 evenly spaced ones for long logs, plus the final state): the image must reopen, hold only published packets, and every stored packet must have its expiry-index row (rows without a packet are tolerated there — the store's own 'not found' branch removes them on the next scan — and committed-packet durability is not demanded, since eviction legitimately removes). non-trivial = >10 disk ops and >=1 commit, or any eviction case; distinct = distinct history hash",
     4_000, 300_000, vec!["lying disks (sync returns Ok without persisting) are not simulated".into(), "an image crashed before the database's very first commit may be unopenable and is skipped (counted)".into(), "evaluations counts runs; fault.crash_points counts the individual crash images checked".into()]);
